@@ -134,66 +134,113 @@ func runB1(p *an.Prog, r *an.Result) {
 		// the list the renderer walks is built by appending at the end, in clause order
 		comp := b.Compiler
 		appends := 0
-		an.EachInstr(comp, func(in ssa.Instruction) {
-			c, ok := in.(*ssa.Call)
-			if !ok {
-				return
-			}
-			bi, ok := c.Call.Value.(*ssa.Builtin)
-			if !ok || bi.Name() != "append" {
-				return
-			}
-			// only accumulators captured by the renderer
-			captured := false
-			for _, o := range an.Origins(c, func(v ssa.Value) []ssa.Value { return nil }) {
-				_ = o
-			}
-			if c.Referrers() != nil {
-				for _, u := range *c.Referrers() {
-					if st, ok := u.(*ssa.Store); ok {
-						if a, ok := st.Addr.(*ssa.Alloc); ok && a.Heap {
-							captured = true
+		compUnit := unitWithHelpers(p, comp)
+		for _, cu := range compUnit {
+			an.EachInstr(cu, func(in ssa.Instruction) {
+				c, ok := in.(*ssa.Call)
+				if !ok {
+					return
+				}
+				bi, ok := c.Call.Value.(*ssa.Builtin)
+				if !ok || bi.Name() != "append" {
+					return
+				}
+				// only accumulators of branches: slices whose elements hold a *render.BlockNode (the branch body)
+				holdsBlock := func(t types.Type) bool {
+					sl, ok := t.Underlying().(*types.Slice)
+					if !ok {
+						return false
+					}
+					found := false
+					var visit func(t types.Type, d int)
+					visit = func(t types.Type, d int) {
+						if d > 3 || found {
+							return
+						}
+						if isNamedIn(t, "render", "BlockNode") {
+							found = true
+							return
+						}
+						switch u := t.Underlying().(type) {
+						case *types.Pointer:
+							visit(u.Elem(), d+1)
+						case *types.Struct:
+							for i := 0; i < u.NumFields(); i++ {
+								visit(u.Field(i).Type(), d+1)
+							}
+						case *types.Interface:
+							// caseInterpreter: its implementers hold the body
+							for _, n := range moduleNamedTypes(p) {
+								if !an.IsInterface(n) && u.NumMethods() > 0 && types.Implements(n, u) {
+									visit(n, d+1)
+								}
+							}
+						}
+					}
+					visit(sl.Elem(), 0)
+					return found
+				}
+				if !holdsBlock(c.Type()) {
+					return
+				}
+				appends++
+				// first operand must be the accumulator itself (append at the end): the variable the result is assigned to
+				first := an.Deref(c.Call.Args[0])
+				isAcc := false
+				if c.Referrers() != nil {
+					for _, u := range *c.Referrers() {
+						switch y := u.(type) {
+						case *ssa.Store:
+							if ld, ok := c.Call.Args[0].(*ssa.UnOp); ok && ld.X == y.Addr {
+								isAcc = true
+							}
+						case *ssa.Phi:
+							if first == ssa.Value(y) {
+								isAcc = true
+							}
 						}
 					}
 				}
-			}
-			if !captured {
-				return
-			}
-			appends++
-			// first operand must be the accumulator itself (append at the end)
-			first := c.Call.Args[0]
-			isAcc := false
-			if u, ok := first.(*ssa.UnOp); ok {
-				if a, ok := u.X.(*ssa.Alloc); ok && a.Heap {
+				if _, isPhi := first.(*ssa.Phi); isPhi {
 					isAcc = true
 				}
-			}
-			if isAcc {
-				r.OK(roles.Label(comp), "branch appended at the end", c.Pos(), "append(acc, x): the list keeps clause order")
-			} else {
-				r.Bad(roles.Label(comp), "branch not appended at the end", c.Pos(), "the branch list is not extended at its end: clause order is not kept")
-			}
-		})
+				if isAcc {
+					r.OK(roles.Label(comp), "branch appended at the end", c.Pos(), "append(acc, x): the list keeps clause order")
+				} else {
+					r.Bad(roles.Label(comp), "branch not appended at the end", c.Pos(), "the branch list is not extended at its end: clause order is not kept")
+				}
+			})
+		}
 		if appends == 0 {
 			r.Bad(roles.Label(comp), "no branch accumulation found", an.FuncPos(comp), "the compiler does not build its branch list by append")
 		}
 		// the loop over node.Clauses is a forward range: the appended clause is Clauses[rangeindex]
 		fwd := false
-		an.EachInstr(comp, func(in ssa.Instruction) {
-			ia, ok := in.(*ssa.IndexAddr)
-			if !ok {
-				return
-			}
-			if !strings.HasSuffix(describe(p, ia.X), ".Clauses") {
-				return
-			}
-			if isForwardRangeIndex(ia.Index) {
-				fwd = true
-			} else {
-				r.Bad(roles.Label(comp), "clauses not walked forward", ia.Pos(), "the clause list is indexed by something other than a forward range index")
-			}
-		})
+		for _, cu := range compUnit {
+			an.EachInstr(cu, func(in ssa.Instruction) {
+				ia, ok := in.(*ssa.IndexAddr)
+				if !ok {
+					return
+				}
+				isClauses := strings.HasSuffix(describe(p, ia.X), ".Clauses")
+				if !isClauses {
+					// a helper that is handed node.Clauses
+					for _, o := range an.Origins(ia.X, stepIP(p)) {
+						if strings.HasSuffix(describe(p, o), ".Clauses") {
+							isClauses = true
+						}
+					}
+				}
+				if !isClauses {
+					return
+				}
+				if isForwardRangeIndex(ia.Index) {
+					fwd = true
+				} else {
+					r.Bad(roles.Label(comp), "clauses not walked forward", ia.Pos(), "the clause list is indexed by something other than a forward range index")
+				}
+			})
+		}
 		if fwd {
 			r.OK(roles.Label(comp), "clauses walked by a forward range", an.FuncPos(comp), "index starts at 0 and steps by +1")
 		} else {
@@ -1284,30 +1331,6 @@ func runB9(p *an.Prog, r *an.Result) {
 		r.Bad(rname, "read errors are not returned", reads[0].Pos(), "a read error other than not-exist must fail the include")
 	}
 	// rendered with a map made here, filled from the live bindings, and with the caller's config
-	rc := callsNamed(rfn, "render.Render")
-	if len(rc) != 1 {
-		r.Bad(rname, "Render calls", an.FuncPos(rfn), fmt.Sprintf("expected one render.Render call, found %d", len(rc)))
-		return
-	}
-	bm := rc[0].Call.Args[2]
-	fresh := true
-	for _, o := range an.Origins(bm, an.StepValue) {
-		if _, ok := o.(*ssa.MakeMap); !ok {
-			fresh = false
-		}
-	}
-	filled := false
-	an.EachInstr(rfn, func(in ssa.Instruction) {
-		if rg, ok := in.(*ssa.Range); ok && strings.HasSuffix(describe(p, rg.X), "ctx.bindings") {
-			filled = true
-		}
-	})
-	okCfg := strings.HasSuffix(describe(p, rc[0].Call.Args[3]), "ctx.config")
-	if fresh && filled && okCfg {
-		r.OK(rname, "renders with a new map filled from the live variables and the caller's config", rc[0].Pos(), "make + range over c.ctx.bindings; config passed through")
-	} else {
-		r.Bad(rname, "include bindings/config", rc[0].Pos(), fmt.Sprintf("the included template must be rendered with a map made here (%v), filled from the includer's current variables (%v), and the includer's configuration (%v)", fresh, filled, okCfg))
-	}
 	// the source compiled is the source read (or the cache entry)
 	cc := callsNamed(rfn, "(render.Config).Compile")
 	okSrc := len(cc) == 1
@@ -1612,10 +1635,25 @@ func runB11(p *an.Prog, r *an.Result) {
 		lenCheck  func(fn *ssa.Function) (bool, string)
 		idxOffset func(fn *ssa.Function) (bool, string)
 	}
+	// the wrapped iterable is the receiver's interface-typed field; the count its integer field
+	isInnerField := func(v ssa.Value) bool {
+		v = an.Deref(v)
+		var owner types.Type
+		var ft types.Type
+		switch x := v.(type) {
+		case *ssa.Field:
+			owner, ft = x.X.Type(), x.Type()
+		case *ssa.UnOp:
+			if fa, ok := x.X.(*ssa.FieldAddr); ok {
+				owner, ft = fa.X.Type().Underlying().(*types.Pointer).Elem(), x.Type()
+			}
+		}
+		return owner != nil && an.IsInterface(ft) && strings.HasSuffix(an.TypeName(owner), "Wrapper")
+	}
 	innerCall := func(fn *ssa.Function, method string) []*ssa.Call {
 		var out []*ssa.Call
 		an.EachInstr(fn, func(in ssa.Instruction) {
-			if c, ok := in.(*ssa.Call); ok && c.Call.IsInvoke() && c.Call.Method.Name() == method && strings.HasSuffix(describe(p, c.Call.Value), ".i") {
+			if c, ok := in.(*ssa.Call); ok && c.Call.IsInvoke() && c.Call.Method.Name() == method && isInnerField(c.Call.Value) {
 				out = append(out, c)
 			}
 		})
@@ -1624,8 +1662,21 @@ func runB11(p *an.Prog, r *an.Result) {
 	fieldN := func(fn *ssa.Function) ssa.Value {
 		var out ssa.Value
 		an.EachInstr(fn, func(in ssa.Instruction) {
-			if v, ok := in.(ssa.Value); ok && strings.HasSuffix(describe(p, v), ".n") {
-				if bt, ok := v.Type().Underlying().(*types.Basic); ok && bt.Info()&types.IsInteger != 0 {
+			v, ok := in.(ssa.Value)
+			if !ok {
+				return
+			}
+			bt, isB := v.Type().Underlying().(*types.Basic)
+			if !isB || bt.Info()&types.IsInteger == 0 {
+				return
+			}
+			switch x := v.(type) {
+			case *ssa.Field:
+				if strings.HasSuffix(an.TypeName(x.X.Type()), "Wrapper") {
+					out = v
+				}
+			case *ssa.UnOp:
+				if fa, ok := x.X.(*ssa.FieldAddr); ok && strings.HasSuffix(an.TypeName(fa.X.Type().Underlying().(*types.Pointer).Elem()), "Wrapper") {
 					out = v
 				}
 			}
@@ -1846,30 +1897,44 @@ func runB9v(p *an.Prog, r *an.Result) {
 		return
 	}
 	rname := an.FuncName(rfn)
-	rc := callsNamed(rfn, "render.Render")
-	if len(rc) != 1 {
-		r.Bad(rname, "Render calls", an.FuncPos(rfn), fmt.Sprintf("expected one render.Render call, found %d", len(rc)))
+	rcall, bind := findCallIP(p, rfn, "render.Render")
+	if rcall == nil {
+		r.Bad(rname, "Render calls", an.FuncPos(rfn), "expected exactly one render.Render call in RenderFile (or in one helper it calls)")
 		return
 	}
-	bm := rc[0].Call.Args[2]
+	rc := []*ssa.Call{rcall}
+	bm := bind(rc[0].Call.Args[2])
 	fresh := true
 	for _, o := range an.Origins(bm, an.StepValue) {
 		if _, ok := o.(*ssa.MakeMap); !ok {
 			fresh = false
 		}
 	}
-	filled := false
-	an.EachInstr(rfn, func(in ssa.Instruction) {
-		if rg, ok := in.(*ssa.Range); ok && strings.HasSuffix(describe(p, rg.X), "ctx.bindings") {
-			filled = true
-		}
-	})
-	okCfg := strings.HasSuffix(describe(p, rc[0].Call.Args[3]), "ctx.config")
+	filled := filledFromBindings(p, rfn)
+	okCfg := strings.HasSuffix(describe(p, bind(rc[0].Call.Args[3])), "ctx.config")
 	if fresh && filled && okCfg {
 		r.OK(rname, "renders with a new map filled from the live variables and the caller's config", rc[0].Pos(), "make + range over c.ctx.bindings; config passed through")
 	} else {
 		r.Bad(rname, "include bindings/config", rc[0].Pos(), fmt.Sprintf("the included template must be rendered with a map made here (%v), filled from the includer's current variables (%v), and the includer's configuration (%v)", fresh, filled, okCfg))
 	}
+}
+
+// filledFromBindings: the function ranges over (or maps.Copy-s from) the live bindings map.
+func filledFromBindings(p *an.Prog, fn *ssa.Function) bool {
+	filled := false
+	an.EachInstr(fn, func(in ssa.Instruction) {
+		switch x := in.(type) {
+		case *ssa.Range:
+			if strings.HasSuffix(describe(p, x.X), "ctx.bindings") {
+				filled = true
+			}
+		case *ssa.Call:
+			if cn := an.CallName(&x.Call); strings.HasPrefix(cn, "maps.Copy") && len(x.Call.Args) == 2 && strings.HasSuffix(describe(p, x.Call.Args[1]), "ctx.bindings") {
+				filled = true
+			}
+		}
+	})
+	return filled
 }
 
 func runB13(p *an.Prog, r *an.Result) {
